@@ -145,6 +145,30 @@ func deepValue(depth int, arr bool) interface{} {
 func genC13Mut(r *h.Rng, tier string, idx int) *h.Plan {
 	p := &h.Plan{Cfg: map[string]interface{}{"state": r.Pick([]string{"indexed", "linear"})}}
 	vals := c13Values()
+	if r.P(1, 10) {
+		// a deep rule met by an equally deep event (or fact by pattern): the same
+		// key nested in itself, the same chain on both sides
+		d := []int{12, 24, 48, 96}[r.Intn(4)]
+		key := r.Pick([]string{"a", "deep"})
+		nest := func(leaf interface{}) interface{} {
+			v := leaf
+			for i := 0; i < d; i++ {
+				v = map[string]interface{}{key: v}
+			}
+			return v
+		}
+		if r.Bool() {
+			p.Ops = append(p.Ops,
+				h.Op{K: "addrule", Q: true, J: map[string]interface{}{"when": map[string]interface{}{"pattern": nest("?x")}, "action": map[string]interface{}{"code": "1"}}},
+				h.Op{K: "event", J: nest("leaf").(map[string]interface{})})
+		} else {
+			p.Ops = append(p.Ops,
+				h.Op{K: "addfact", Q: true, J: nest("leaf").(map[string]interface{})},
+				h.Op{K: "search", J: nest("?x").(map[string]interface{})},
+				h.Op{K: "query", J: map[string]interface{}{"pattern": nest("?x")}})
+		}
+		return p
+	}
 	n := r.Range(1, 5)
 	for i := 0; i < n; i++ {
 		entry := r.Pick(c13Entry)
@@ -356,6 +380,9 @@ func execC13(t *testing.T, plan *h.Plan, trace bool) *h.Result {
 			canary(desc)
 			canaryDisabled = false
 			// whatever the hostile input left behind is removed again (and that must work too)
+			if op.Q {
+				continue // what this input stored stays for the next one to meet
+			}
 			guard("cleanup", func() {
 				loc.RemFact(ctx(), "hostile")
 				loc.RemRule(ctx(), "hostilerule")
